@@ -29,6 +29,8 @@ def run(ctx):
     r3_isinstance(ctx)
     r4_threading(ctx)
     r5_missing(ctx)
+    r6_statistic_table(ctx)
+    r7_alignment(ctx)
 
 
 def r1_window(ctx):
@@ -191,6 +193,82 @@ def r5_missing(ctx):
         ctx.ob("C11.R5", EF, "Impute.filter", node, f"{arm}: the missingness indicator is raised only for replaced values", okf, stmt=f"indicator guard {arm}")
 
 
+def r6_statistic_table(ctx):
+    ctx.rule("C11.R6", "keyword -> statistic table: each documented shift/scale/impute keyword selects the documented stdlib statistic of the window's values, "
+                       "called with exactly that one argument")
+    shift = ctx.fn(EF, "Scale._shift_value")
+    want_shift = {"min": "-min(values)", "mean": "-fmean(values)", "median": "-median(values)"}
+    got = {}
+    for x in walk_shallow(shift):
+        if isinstance(x, ast.If):
+            rets = [unparse(r.value) for st in x.body for r in walk_shallow(st) if isinstance(r, ast.Return)]
+            for c in ast.walk(x.test):
+                if isinstance(c, ast.Compare) and isinstance(c.ops[0], ast.Eq) and const_str(c.comparators[0]) and rets:
+                    got[const_str(c.comparators[0])] = rets[0]
+    ok = all(got.get(k) == v for k, v in want_shift.items()) and got.get("med", "-median(values)") == "-median(values)"
+    ctx.ob("C11.R6", EF, "Scale._shift_value", shift, "shift keywords map to -min / -fmean / -median of the values", ok, detail={"table": got}, stmt="shift table")
+    sc = ctx.fn(EF, "Scale._scale_value")
+    want_scale = {"minmax": "max(values) - min(values)", "std": "stdev(values)", "iqr": "iqr(values)", "maxabs": "max(map(abs, map(shift.__add__, values)))"}
+    got = {}
+    for x in walk_shallow(sc):
+        if isinstance(x, ast.If) and isinstance(x.test, ast.Compare) and const_str(x.test.comparators[0]):
+            den = [unparse(a.value) for a in x.body if isinstance(a, ast.Assign) and "den" in unparse(a.targets[0])]
+            if den:
+                got[const_str(x.test.comparators[0])] = den[0]
+    ctx.ob("C11.R6", EF, "Scale._scale_value", sc, "scale keywords map to max-min / stdev / iqr / max|x+shift| of the values (one argument each)", got == want_scale, detail={"table": got}, stmt="scale table")
+    rets = [unparse(r.value) for r in walk_shallow(sc) if isinstance(r, ast.Return)]
+    ctx.ob("C11.R6", EF, "Scale._scale_value", sc, "the scale factor is numerator/denominator, 'constant column' guarded", len(rets) == 1 and "scale_num / scale_den" in rets[0] and "scale_den <" in rets[0], stmt="scale quotient")
+    gi = ctx.fn(EF, "Impute._get_imputation")
+    got = {}
+    for x in walk_shallow(gi):
+        if isinstance(x, ast.If) and isinstance(x.test, ast.Compare) and const_str(x.test.comparators[0]):
+            rets = [unparse(r.value) for st in x.body for r in walk_shallow(st) if isinstance(r, ast.Return)]
+            if rets:
+                got[const_str(x.test.comparators[0])] = rets[0]
+    want = {"mean": "sum(values) / len(values)", "median": "median(values)", "mode": "mode(values)"}
+    ctx.ob("C11.R6", EF, "Impute._get_imputation", gi, "impute keywords map to mean / median / mode of the non-missing values", got == want, detail={"table": got}, stmt="impute table")
+    gs = ctx.fn(EF, "Scale._get_shift_and_scale")
+    src = unparse(gs)
+    ok = "shift = self._shift_value(values)" in src and "scale = self._scale_value(values, shift)" in src and "values = [v for v in values if v is not None]" in src
+    ctx.ob("C11.R6", EF, "Scale._get_shift_and_scale", gs, "shift and scale are computed from the same non-missing values, scale knowing the shift", ok, stmt="shift then scale")
+
+
+def r7_alignment(ctx):
+    ctx.rule("C11.R7", "statistics stay aligned with their columns: the columns handed to the statistic routine are selected by the same key list, in the same "
+                       "order, that the results are zipped/compressed with")
+    fn = ctx.fn(EF, "Impute.filter")
+    from ..util import name_bound
+    IMP = name_bound(fn, lambda v: isinstance(v, ast.ListComp) and "enumerate(first['context'])" in unparse(v), "imputable_cols")
+    UNI = None
+    for x in walk_shallow(fn):
+        if isinstance(x, ast.Assign) and isinstance(x.targets[0], ast.Name) and f"itemgetter(*{IMP})" in unparse(x.value):
+            UNI = x.targets[0].id
+    loops = [x for x in walk_shallow(fn) if isinstance(x, ast.For) and UNI is not None and UNI in {n.id for n in ast.walk(x.iter) if isinstance(n, ast.Name)} and has_call(x, "_get_imputation")
+             and not (isinstance(x.iter, ast.Call) and call_tail(x.iter) == "items")]  # the sparse arm iterates its own key->values dict
+    ctx.floor("C11.R7", "dense statistic loops in Impute.filter", len(loops), 1)
+    for lp in loops:
+        ok = unparse(lp.iter) == f"zip({IMP}, {UNI})" and isinstance(lp.target, ast.Tuple)
+        ctx.ob("C11.R7", EF, "Impute.filter", lp, "dense imputation statistics are keyed by the real column index of the column they were computed from", ok,
+               detail={"iterates": unparse(lp.iter), "columns_selected_by": f"itemgetter(*{IMP})"})
+        if ok:
+            key = unparse(lp.target.elts[0])
+            st = [x for x in walk_shallow(lp) if isinstance(x, ast.Assign) and isinstance(x.targets[0], ast.Subscript) and unparse(x.targets[0].slice) == key]
+            ctx.ob("C11.R7", EF, "Impute.filter", lp, "results are stored under that column index", bool(st), stmt="store by column index")
+    sf = ctx.fn(EF, "Scale.filter")
+    src = unparse(sf)
+    PK = name_bound(sf, lambda v: isinstance(v, ast.Constant) and v.value is None, "potential_keys")
+    SV = name_bound(sf, lambda v: "map(self._get_shift_and_scale" in unparse(v), "scaling_vals")
+    SK = name_bound(sf, lambda v: isinstance(v, ast.Call) and call_name(v) == "compress" and unparse(v.args[0]) == PK, "scaling_keys")
+    ok = f"{SK} = compress({PK}, {SV})" in src and f"{SV} = compress({SV}, {SV})" in src and src.index(f"{SK} = compress({PK}, {SV})") < src.index(f"{SV} = compress({SV}, {SV})")
+    ctx.ob("C11.R7", EF, "Scale.filter", sf, "keys and (shift,scale) pairs are filtered by the same selector, keys first (before the selector is overwritten)", ok, stmt="compress keys and values alike")
+    cols = [unparse(v) for v in assigned_value(sf, name_bound(sf, lambda v: f"itemgetter(*{PK})" in unparse(v), "cols"))]
+    okc = len(cols) == 4 and all(PK in c or "fitting_contexts" in c for c in cols)
+    ctx.ob("C11.R7", EF, "Scale.filter", sf, "every container arm builds its columns from the key list, in key order", okc, detail={"cols": cols}, stmt="columns by key list")
+    pairs = [unparse(v) for v in walk_shallow(sf) if isinstance(v, ast.Call) and call_name(v) in ("zip", "dict") and SK in unparse(v) and SV in unparse(v)]
+    ctx.ob("C11.R7", EF, "Scale.filter", sf, "keys are paired with their statistics position-wise", sorted(pairs)[:2] == sorted([f"dict(zip({SK}, {SV}))", f"zip({SK}, {SV})"])[:2] or
+           {f"zip({SK}, {SV})"} <= set(pairs), detail={"pairs": pairs}, stmt="zip keys with statistics")
+
+
 def _chain(lp):
     """the if/elif chain directly in the loop body"""
     out = []
@@ -203,6 +281,8 @@ def _chain(lp):
 
 
 CONTROLS = [
+    ("std around the shift", EF, M.replace_expr("Scale._scale_value", "stdev(values)", "stdev(values, -shift)"), "C11.R6"),
+    ("imputations keyed by position", EF, M.replace_expr("Impute.filter", "zip(imputable_cols, unimputed)", "enumerate(unimputed)"), "C11.R7"),
     ("apply to the remainder only", EF, M.replace_expr("Scale.filter", "chain(fitting_interactions, remaining_interactions)", "remaining_interactions", nth=2), "C11.R1"),
     ("scale the actions", EF, M.replace_stmt("Scale.filter", M.simple_has("new['context'] = (new['context'] + shift) * scale"), "new['actions'] = (new['context'] + shift) * scale"), "C11.R2"),
     ("scale result dropped", EC, M.replace_stmt("Environments.scale", M.text_has("for t in targets"), "for t in targets:\n    envs = self.filter(Scale(shift, scale, t, using))\nreturn envs"), "C11.R4"),
